@@ -9,6 +9,7 @@ import (
 	"fmt"
 	"os"
 	"sort"
+	"strings"
 
 	"verif/c07/gen"
 )
@@ -60,6 +61,18 @@ func main() {
 		}
 		json.NewEncoder(os.Stdout).Encode(res)
 		return
+	}
+	// history: another program may be loaded and generated first in this
+	// process (C07_BEFORE=<dir>|<file>,<file>...): the outputs of the program
+	// asked for must not depend on it
+	if before := os.Getenv("C07_BEFORE"); before != "" {
+		bdir, bfiles, _ := strings.Cut(before, "|")
+		if bl, berr := gen.Load(bdir, strings.Split(bfiles, ",")); berr == nil {
+			bl.GenerateAll()
+		} else {
+			fmt.Fprintln(os.Stderr, "load of the earlier program:", berr)
+			os.Exit(2)
+		}
 	}
 	l, err := gen.Load(dir, files)
 	if err != nil {
